@@ -85,6 +85,11 @@ CHECKS = {
     category="model_checking", design_ref="4 C07",
     text="TLC checks for every threshold on a 64-point (thorough 256) grid and both search orientations that the end the implementation returns is the sound one and that the neighbouring grid point violates the predicate. Real cdp_rho / cdp_eps / cdp_delta calls on log grids and random points of the stated ranges are traced (hook H6): at every iteration the end that moves must be the one prescribed by an independent evaluation of the published Renyi-order bound (dense alpha grid + golden section), the midpoint and the untouched end are checked, and the returned value must be the sound end. Returned values must satisfy, as TLC comparisons of fixed-point logarithms: implied delta <= target, exact Gaussian-mechanism delta <= implied delta, tightness (a 1e-6 larger budget / smaller epsilon violates the target), cdp_delta = optimum of the bound, monotonicity in each argument, and the two inverse relations where the constraint is active.",
     note="Level for the analytic clauses is 'other': exp/log1p/erfc are evaluated by the harness, TLC decides the comparisons and branch consistency. Bound minimised over alpha >= 1.01 (the implementation's documented stability floor)."),
+ "C19": dict(
+    technique="TLA+ spec of the accept/reject/step-size loop of public-data reweighting (spec/approx/PublicMD.tla; ReturnsLastAccepted, NoDoublingAfterReject) model-checked by TLC over every outcome sequence; hook-H5 traces validated by spec/approx/PublicTrace.tla; validity and fit of the returned weights checked against an independent numpy oracle",
+    category="model_checking", design_ref="4 C19",
+    text="TLC explores every accept/reject sequence of length 10 (thorough 12) of the line-search machine and checks that the weights returned are the last accepted point, that the step never doubles after a rejection and that the iterate moves only on accepted steps. PublicInference.estimate is run on a fresh object for seeded public datasets (support missing private cells and vice versa), measurement sets (identity/total/prefix queries, projections in any order incl. reordered full-domain), noise scales and totals given / estimated / estimated-below-zero / unrelated; the result must hold one finite non-negative weight per public record summing to the total over the unchanged records, and its squared-error fit recomputed with plain numpy must not exceed that of uniform weights with the same total; each run's H5 stream must be a behaviour of the spec with branch = independently re-evaluated comparison and exact step-size exponents.",
+    note="Fresh object per scenario (repeated calls on one object are outside the property)."),
 }
 
 NOT_YET = "check not built yet (work in progress, see DESIGN.md section 8 build order)"
